@@ -183,6 +183,31 @@ theorem C03_periodic (xs ys : List F) (hs : StrictInc xs) (hy : ys.length = xs.l
       field_simp at hrow0 ⊢
       linear_combination hrow0
 
+/-- an answered Periodic solve (`n ≥ 4`): the end values are equal and the slopes satisfy the cyclic system -/
+theorem periodicCond_of_solve (xs ys ks : List F) (hs : StrictInc xs) (hy : ys.length = xs.length)
+    (hn : 4 ≤ xs.length) (h : solveForK (V := F) xs ys .periodic = .ok ks) :
+    ys[0]'(by omega) = ys[xs.length - 1]'(by omega) ∧
+      ∃ hk : ks.length = xs.length, PeriodicCond xs ys ks hy hk hn := by
+  rw [solveForK_periodic_eq xs ys hy hn] at h
+  by_cases hends : ys[0]'(by omega) = ys[xs.length - 1]'(by omega)
+  · rw [if_pos hends] at h
+    obtain ⟨ks0, hk, hper, hint, hkl, hrow0⟩ := periodic_spec xs ys hy hn hs
+    rw [hper] at h
+    injection h with h
+    subst h
+    exact ⟨hends, hk, hint, hkl, hrow0⟩
+  · rw [if_neg hends] at h; cases h
+
+/-- slopes satisfying the cyclic system are what the Periodic solve returns -/
+theorem solve_of_periodicCond (xs ys ks : List F) (hs : StrictInc xs) (hy : ys.length = xs.length)
+    (hn : 4 ≤ xs.length) (hends : ys[0]'(by omega) = ys[xs.length - 1]'(by omega))
+    (hk : ks.length = xs.length) (h : PeriodicCond xs ys ks hy hk hn) :
+    solveForK (V := F) xs ys .periodic = .ok ks := by
+  obtain ⟨ks0, hk0, hper, hint, hkl, hrow0⟩ := periodic_spec xs ys hy hn hs
+  rw [solveForK_periodic_eq xs ys hy hn, if_pos hends, hper]
+  congr 1
+  exact periodic_unique xs ys ks0 ks hs hy hn hk0 hk ⟨hint, hkl, hrow0⟩ h
+
 /-- **C03_periodic_unique** (`n ≥ 4`): any slopes whose piecewise cubic is C² at the interior knots
     and has equal first and second derivatives at the two ends are the slopes the Periodic solve
     returns — the periodic spline is unique (the cyclic system is strictly diagonally dominant). -/
